@@ -56,7 +56,15 @@ class IMSCWriterConfiguration(ModuleConfiguration):
       if value is None:
         return None
 
+      if not isinstance(value, str):
+        raise ValueError(f"Invalid fps '{value}' value. Expect: '<num>/<denom>'.")
+
       [num, den] = value.split('/')
+
+      # the frame rate is written as a positive integer, ttp:frameRate, and a multiplier
+
+      if int(num) <= 0 or int(den) <= 0 or round(Fraction(int(num), int(den))) < 1:
+        raise ValueError(f"Invalid fps '{value}' value. Expect: '<num>/<denom>'.")
 
       return Fraction(int(num), int(den))
   
